@@ -18,6 +18,7 @@ check : for every input module (hand corpus, front-end produced, generated + "pe
 import concurrent.futures
 import io
 import os
+import time
 
 from . import common, irgen, irser
 from . import c02_ir as T
@@ -531,6 +532,7 @@ def drive(ctx, plans):
         return k, ctx.driver("C03", lines)
 
     wf, mrep = {}, {}
+    t0 = time.time()
     with concurrent.futures.ThreadPoolExecutor(max_workers=WORKERS) as ex:
         for k, rep in ex.map(one, range(WORKERS)):
             n = len(bins[k])
@@ -538,6 +540,7 @@ def drive(ctx, plans):
                 wf[t] = rep[2 * j + 1] if not rep[2 * j].startswith("bad-op") else "bad-op"
             for j, (pi, mi, _, _) in enumerate(mbins[k]):
                 mrep[(pi, mi)] = rep[2 * n + 2 * j + 1]
+    ctx.extra_cov["driver_seconds"] = round(time.time() - t0, 1)
     for pi, pl in enumerate(plans):
         evaluate(ctx, pl, wf, [mrep[(pi, mi)] for mi in range(len(pl.model))])
 
@@ -549,6 +552,7 @@ def check(ctx):
     ngen = 40 if ctx.thorough else 5
     inputs += gen_texts(ctx, ngen)
     plans = []
+    t0 = time.time()
     for k, (tag, text) in enumerate(inputs):
         small = len(text) < 6000
         if ctx.thorough:
@@ -560,6 +564,7 @@ def check(ctx):
         pl = make_plan(ctx, tag, text, pass_set, nseq, levels, with_model=True)
         if pl is not None:
             plans.append(pl)
+    ctx.extra_cov["pass_run_seconds"] = round(time.time() - t0, 1)
     drive(ctx, plans)
 
 
